@@ -244,12 +244,16 @@ class _Delegate(PairingDelegate):
         return True
 
     async def confirm(self, auto=False):
+        if self.answer in (1, 3):
+            self.shared['rejected'] = True      # this user was asked and said no
         if self.answer == 3:
             await asyncio.sleep(0.5)          # the user takes a while, then rejects
             return False
         return self.answer != 1
 
     async def compare_numbers(self, number, digits):
+        if self.answer != 0:
+            self.shared['rejected'] = True
         if self.answer == 3:
             await asyncio.sleep(0.5)
             return False
@@ -259,6 +263,8 @@ class _Delegate(PairingDelegate):
         self.shared['number'] = number
 
     async def get_number(self):
+        if self.answer != 0:
+            self.shared['rejected'] = True
         if self.answer in (1, 3):
             return None
         for _ in range(50):
@@ -310,7 +316,7 @@ def _pairing_run(io_a, io_b, sc_a, sc_b, mitm_a, mitm_b, bond_a, bond_b, ans_a, 
         kb = next(iter(devs[1].keystore.all_keys.values()), None)
         sa = devs[0].smp_manager.sessions.get(conn.handle)
         return {'done': t.done(), 'exc': (t.exception() if t.done() and not t.cancelled() else None), 'ends': ends, 'ka': ka, 'kb': kb,
-                'enc_a': conn.is_encrypted, 'enc_b': peer_conn.is_encrypted, 'devs': devs, 'conn': conn, 'peer_conn': peer_conn, 'loop': loop}
+                'enc_a': conn.is_encrypted, 'enc_b': peer_conn.is_encrypted, 'rejected': shared.get('rejected', False), 'devs': devs, 'conn': conn, 'peer_conn': peer_conn, 'loop': loop}
 
 
 def _expected_method(io_a, io_b, sc, mitm):
@@ -335,6 +341,8 @@ def system_pairing(io_b: int, ans: int, who: int, io_a: int, sc_a: int, sc_b: in
             return False                               # pairing hangs
         ok_a = r['exc'] is None
         ends = r['ends']
+        if r['rejected'] and (ok_a or r['ka'] is not None or r['kb'] is not None or 'ok' in ends['a'] or 'ok' in ends['b']):
+            return False                               # a user who was asked refused (or typed a wrong passkey): no success, no keys
         if ok_a:
             if ends['b'] != ['ok'] or not (r['enc_a'] and r['enc_b']):
                 return False
